@@ -15,7 +15,7 @@
    next to a float", "nulls spelled alike" and "no number next to a string"
    are gone; the remaining clauses are delimited by [_refuted] witnesses. *)
 From Coq Require Import List NArith ZArith QArith Permutation Sorted String.
-From YQ Require Import Base.Str Spec.Order Model.Sort Proofs.SortProofs.
+From YQ Require Import Base.Str Spec.Order Model.Sort Proofs.SortProofs Proofs.SortNoPanic.
 Import ListNotations.
 Open Scope Z_scope.
 
@@ -39,6 +39,22 @@ Print Assumptions C15_psort_perm.
 Theorem C15_cmp_never_panics : forall a b : scalar, cmp a b <> Panic.
 Proof. exact cmp_no_panic. Qed.
 Print Assumptions C15_cmp_never_panics.
+
+(* nor have < <= > >=, min / max and sort / sort_by themselves: for every pair of scalars, every
+   sequence of any length and every key list, the outcome is a result or an error, never a panic
+   (no consistency hypothesis: this holds outside D too) *)
+Theorem C15_ops_never_panic : forall (or_equal greater : bool) (a b : scalar),
+  compare_scalars or_equal greater a b <> Panic.
+Proof. exact compare_scalars_no_panic. Qed.
+Print Assumptions C15_ops_never_panic.
+
+Theorem C15_min_max_never_panic : forall (greater : bool) (l : list (scalar * N)), superlative greater l <> Panic.
+Proof. exact superlative_no_panic. Qed.
+Print Assumptions C15_min_max_never_panic.
+
+Theorem C15_sort_never_panics : forall l : list elem, sort_by l <> Panic.
+Proof. exact sort_by_no_panic. Qed.
+Print Assumptions C15_sort_never_panics.
 
 (* ---------------- on the consistent domain: defined, sorted, stable, idempotent, unique ---------------- *)
 Theorem C15_sort_sorted : forall l : list elem, consistent l ->
